@@ -5,6 +5,7 @@ CONSTANTS
   MaxOps = 2
   MaxNodes = 3
   Top = 1
+  IterProcs = {}
   InFlightDelN = FALSE
   FIXK1 = FALSE
 INVARIANT NoDupKeys
